@@ -75,6 +75,7 @@ type Req struct {
 	Pipe    *PipeCase  `json:"pipe,omitempty"`
 	Skip    []string   `json:"skip,omitempty"`  // calls not to make (they killed an earlier worker)
 	Only    string     `json:"only,omitempty"`  // confirmation runs: besides opening the file, make only this call
+	NoRetry bool       `json:"-"`               // parent side: do not go on with the case after a worker death
 	GraceMs int        `json:"grace,omitempty"` // goroutine grace period
 	Probe   bool       `json:"probe,omitempty"` // only the walker-specific probe call
 	Echo    bool       `json:"echo,omitempty"`  // return the input bytes with the done line
@@ -310,9 +311,11 @@ func (k *wk) wanted(name string) bool {
 	if k.only == "" || name == k.only {
 		return true
 	}
+	seq := strings.HasPrefix(k.only, "seq") || strings.HasPrefix(k.only, "makereader")
 	switch {
-	case strings.HasPrefix(name, "open/"), name == "seqscan", strings.HasPrefix(name, "makereader/"), name == "close",
-		name == "get", name == "seq/get", name == "pages", name == "seq/pages":
+	case name == "seqscan", strings.HasPrefix(name, "makereader/"), name == "seq/get", name == "seq/pages":
+		return seq
+	case strings.HasPrefix(name, "open/"), name == "close", name == "get", name == "pages":
 		return true
 	case name == "page" || name == "pagefonts":
 		return k.only == "process" || k.only == "pagefonts" || k.only == "font" || k.only == "fontprog" || k.only == "glyphnames"
